@@ -59,7 +59,7 @@ func GetDecompressor(compression conformancev1.Compression) (connect.Decompresso
 	case conformancev1.Compression_COMPRESSION_UNSPECIFIED, conformancev1.Compression_COMPRESSION_IDENTITY:
 		return &noOpDecompressor{}, nil
 	case conformancev1.Compression_COMPRESSION_GZIP:
-		return &gzip.Reader{}, nil
+		return &gzipDecompressor{}, nil
 	case conformancev1.Compression_COMPRESSION_BR:
 		return NewBrotliDecompressor(), nil
 	case conformancev1.Compression_COMPRESSION_ZSTD:
@@ -71,6 +71,29 @@ func GetDecompressor(compression conformancev1.Compression) (connect.Decompresso
 	default:
 		return nil, fmt.Errorf("unsupported compression scheme %v", compression)
 	}
+}
+
+// gzipDecompressor is a thin wrapper around a gzip Reader. The zero-value
+// gzip Reader panics in Close if no Reset has succeeded yet (for example
+// because the very first message was malformed); this one does not.
+type gzipDecompressor struct {
+	gzip.Reader
+	ready bool
+}
+
+func (d *gzipDecompressor) Reset(reader io.Reader) error {
+	err := d.Reader.Reset(reader)
+	if err == nil {
+		d.ready = true
+	}
+	return err
+}
+
+func (d *gzipDecompressor) Close() error {
+	if !d.ready {
+		return nil
+	}
+	return d.Reader.Close()
 }
 
 type noOpCompressor struct {
